@@ -221,6 +221,37 @@ fn main() {
                     }
                 }
             }
+            // if-expressions: every combination of condition kinds (known false / true / nil, opaque,
+            // call) and result kinds (literal, call, field read) with one elseif branch
+            let conds: Vec<Expression> = vec![
+                Expression::from(false),
+                Expression::from(true),
+                Expression::nil(),
+                Expression::identifier("u"),
+                Expression::identifier("n"),
+                FunctionCall::from_name("ext_f").into(),
+            ];
+            let results: Vec<Expression> = vec![
+                num(1.0),
+                FunctionCall::from_name("ext_f").into(),
+                FieldExpression::new(Prefix::from_name("t"), "k").into(),
+                Expression::nil(),
+            ];
+            for c1 in &conds {
+                for c2 in &conds {
+                    for r1 in &results {
+                        for r2 in &results {
+                            for r3 in &results {
+                                if full || rng.chance(1, 3) {
+                                    emit(&IfExpression::new(c1.clone(), r1.clone(), r3.clone())
+                                        .with_branch(c2.clone(), r2.clone())
+                                        .into());
+                                }
+                            }
+                        }
+                    }
+                }
+            }
             for _ in 0..n {
                 let d = 1 + rng.below(depth);
                 emit(&gen(&mut rng, d, &leaves));
